@@ -9,6 +9,7 @@ CONSTANTS
   Ids <- $4
   IdPath <- $5
   THs = $6
+  LGs = $LG
   MaxHead = 2
   Peers <- $7
   Legacy <- $8
@@ -17,11 +18,13 @@ CONSTANTS
   FIX_SET_COUNT = ${11}
   FIX_MERGE_UP = ${12}
   FIX_NIL_HASH = ${13}
+  DEV_SAME_COUNT_EQUAL = ${DEV:-FALSE}
 EOF
 for i in ${14}; do echo "INVARIANT $i" >> $1; done
 [ -n "${15}" ] && echo "CONSTRAINT ${15}" >> $1
 echo "CHECK_DEADLOCK FALSE" >> $1
 }
+LG="{1}"
 C08INV="TypeOK Canonical FreshIsFill HashIdentifiesContents DepthBound"
 C07INV="TypeOK Canonical DiffExactAllRequesters"
 C07PAIR="TypeOK Canonical DiffExact SameContentsSameHash"
@@ -48,3 +51,17 @@ mk Ldiff_c07_legacy_t.cfg 2 3 Ids2_4 U2 "{1, 2}" OnlyR OnlyR 1 7 TRUE TRUE TRUE 
 mk Ldiff_c07_legacy_t3.cfg 3 3 Ids3_4 U3 "{1, 2}" OnlyR OnlyR 1 6 TRUE TRUE TRUE "TypeOK DiffExactAllRequesters" "CntBound"
 # ---- C07, compareResults before the repair (TLC must find the missed ids)
 mk Ldiff_c07_asis_nil.cfg 2 3 Ids2_4 U2 "{1, 2}" OnlyR NoPeer 1 99 TRUE TRUE FALSE "$C07INV" ""
+# ---- independently tuned indexes incl. different divide factors (DF^1 and DF^2), depth 4
+LG="{1, 2}"
+mk Ldiff_c08_q4m.cfg 2 4 Ids4_4 U4 "{1, 2}" JustL NoPeer 2 99 TRUE TRUE TRUE "$C08INV" ""
+mk Ldiff_c08_t4m.cfg 2 4 Ids4_5 U4 "{1, 2}" JustL NoPeer 2 99 TRUE TRUE TRUE "$C08INV" ""
+mk Ldiff_c07_q4m.cfg 2 4 Ids4_4 U4 "{1, 2}" OnlyR NoPeer 1 99 TRUE TRUE TRUE "$C07INV" ""
+mk Ldiff_c07_t4m.cfg 2 4 Ids4_5 U4 "{1, 2, 3}" OnlyR NoPeer 1 99 TRUE TRUE TRUE "$C07INV" ""
+mk Ldiff_c07_legacy_t4m.cfg 2 4 Ids4_3 U4 "{1, 2}" OnlyR OnlyR 1 6 TRUE TRUE TRUE "TypeOK DiffExactAllRequesters" "CntBound"
+LG="{1}"
+# ---- deviation "same count and same hash => equal": exact for equally tuned peers, TLC must refute it
+# ---- as soon as requester and remote choose their thresholds independently
+DEV=TRUE
+mk Ldiff_c07_dev_samecount.cfg 2 3 Ids2_3c U2 "{1, 2}" OnlyR NoPeer 1 99 TRUE TRUE TRUE "$C07INV" ""
+mk Ldiff_c07_dev_samecount_1th.cfg 2 3 Ids2_4 U2 "{2}" OnlyR NoPeer 1 99 TRUE TRUE TRUE "$C07INV" ""
+DEV=FALSE
